@@ -33,6 +33,7 @@ EXPLANATION = (
   ' (STATE-share) no assignment stores a container field of one object (a field the package updates in place) into a field of another object without copying it, so an in-place update of one object never changes another;'
   " (ITEM-source) an object built once per item of an inner loop is filled only with values that derive from that item or do not vary with the loops, never with a value of the enclosing container standing where the item's own belongs;"
   ' (NUL-known) no local is dereferenced at a point where a dominating test has established that it is None and nothing has assigned it since (the test and the dereference would contradict each other);'
+  ' (LOOP-break) no loop over the items of a collection is left by a branch that does nothing but `break` on a test about the item (end-of-input sentinels, flags set in the loop body and searches whose variable is read afterwards excepted): an item that is to be skipped does not end the processing of the items after it;'
 )
 RULE_TEXT = "per code class, per control code, per decoder-state call, per style property x caption style"
 UNDECIDED = ["everything the statement says about *what is displayed when*: pop-on flip, roll-up window depth, paint-on accumulation, cursor / backspace arithmetic, "
